@@ -50,6 +50,11 @@ HighSourceSets == {
     << [tiles |-> << <<2,1,1,101>>, <<30,5,7,102>>, <<31,0,0,103>>, <<31,2147483647,2147483647,104>> >>, tc |-> "none"],
        [tiles |-> << <<2,1,1,201>>, <<31,0,0,202>>, <<31,2147483646,1,203>> >>, tc |-> "none"] >> }
 
+\* from_debug as the source (C02 names it): filter chains over a generated pyramid; two tile formats
+DebugBases == { [op |-> "debug", format |-> "pbf"], [op |-> "debug", format |-> "png"] }
+DebugChains1 == { Wrap(f, b) : f \in Filters, b \in DebugBases }
+DebugPrograms == DebugChains1 \cup { Wrap([op |-> "zoom", min |-> a, max |-> 3], t) : a \in {-1, 2}, t \in { x \in DebugChains1 : x.op = "bbox" } }
+
 CovList(tiles) ==
     LET ls == SetToSeq(Levels(tiles)) IN
     [j \in 1..Len(ls) |-> LET h == LevelHull(tiles, ls[j]) IN <<ls[j], h[1], h[2], h[3], h[4]>>]
@@ -61,6 +66,8 @@ Init ==
        /\ Emit([k |-> "pipe", tree |-> tree, invalid |-> 0, sources |-> srcsel])
     \/ /\ invalid = 0 /\ tree \in HighPrograms /\ srcsel \in HighSourceSets
        /\ Emit([k |-> "pipe", tree |-> tree, invalid |-> 0, sources |-> srcsel])
+    \/ /\ invalid = 0 /\ tree \in DebugPrograms /\ srcsel = <<>>
+       /\ Emit([k |-> "pipe", tree |-> tree, invalid |-> 0, debug |-> 1, sources |-> <<>>])
     \/ /\ invalid = 1 /\ srcsel \in SourceSets
        /\ \E raw \in InvalidRaw, b \in Bases :
              /\ tree = [op |-> "bbox", raw |-> raw, geo |-> [L0 |-> 0, w |-> 0, n |-> 0, e |-> 0, s |-> 0], src |-> b]
@@ -68,8 +75,9 @@ Init ==
 Next == UNCHANGED vars
 Spec == Init /\ [][Next]_vars
 
-InvChain == invalid = 0 => LawChain(tree, WithCov(srcsel))
+IsDebugTree == srcsel = <<>>
+InvChain == (invalid = 0 /\ ~IsDebugTree) => LawChain(tree, WithCov(srcsel))
 \* a filter never invents tiles and never changes a payload
-InvSubset == invalid = 0 => Sem(tree, WithCov(srcsel)) \subseteq
+InvSubset == (invalid = 0 /\ ~IsDebugTree) => Sem(tree, WithCov(srcsel)) \subseteq
                  (SetOf(srcsel[1].tiles) \cup SetOf(srcsel[2].tiles))
 =============================================================================
